@@ -262,3 +262,6 @@ func W256Mask(n uint) W256 {
 // BlobLens sets the range of encoded lengths the engine's opaque codec model uses for every
 // Marshal/Encode (the engine forks over min..max). Natively a no-op (real CBOR decides).
 func BlobLens(min, max int) {}
+
+// BitLen returns the minimum number of bits needed to represent a (0 for zero).
+func (a W256) BitLen() uint { return uint(a.big().BitLen()) }
